@@ -409,6 +409,9 @@ class Sc:
             k = int(k)
         if isinstance(k, (float, _np.floating)) and float(k) == 0.5:
             return s.sqrt()
+        if isinstance(k, (float, _np.floating)) and float(2 * k).is_integer():
+            # half-integer power: x ** (p/2) = sqrt(x) ** p
+            return s.sqrt() ** int(round(2 * float(k)))
         if isinstance(k, (int, _np.integer)):
             k = int(k)
             if k < 0:
@@ -616,7 +619,7 @@ def _try_merge(kind, terms):
     for (k2, fp2, vars2, terms2) in CTX.aux_fp:
         if k2 != kind:
             continue
-        if all(abs(a - b) <= 1e-9 * max(1.0, abs(a), abs(b)) for a, b in zip(fp, fp2)):
+        if all((a == b) or abs(a - b) <= 1e-9 * max(abs(a), abs(b)) for a, b in zip(fp, fp2)):
             if kind == "sqrt":
                 claim = terms[0] == terms2[0]
             else:  # n/d == n2/d2  <=  n*d2 == n2*d (both denominators non-zero is a definedness obligation)
